@@ -126,7 +126,11 @@ def cacheRead (idx : Nat) : F Unit := fun s =>
 def writeBack : F Unit := fun s =>
   match s.cache.tag with
   | none => (.panic "write_back with no read", s)
-  | some idx => devWrite idx s
+  | some idx =>
+    match devWrite idx s with
+    | (.ok (), s') => (.ok (), s')
+    -- the device does not hold what the cache holds: the block is forgotten
+    | (r, s') => (r, { s' with cache := { s'.cache with tag := none } })
 
 /-- `BlockCache::write_back_with_duplicate`. -/
 def writeBackWithDuplicate (dup : Nat) : F Unit := fun s =>
@@ -134,8 +138,11 @@ def writeBackWithDuplicate (dup : Nat) : F Unit := fun s =>
   | none => (.panic "write_back with no read", s)
   | some idx =>
     match devWrite idx s with
-    | (.ok (), s') => devWrite dup s'
-    | (r, s') => (r, s')
+    | (.ok (), s') =>
+      match devWrite dup s' with
+      | (.ok (), s'') => (.ok (), s'')
+      | (r, s'') => (r, { s'' with cache := { s''.cache with tag := none } })
+    | (r, s') => (r, { s' with cache := { s'.cache with tag := none } })
 
 /-- `BlockCache::blank_mut`. -/
 def blankMut (idx : Nat) : F Unit := fun s =>
